@@ -8,6 +8,8 @@ import (
 	"sync"
 
 	"github.com/dgraph-io/badger/v4"
+
+	"github.com/mimiro-io/datahub/internal/conf"
 )
 
 // Exported accessors for the simulation harness (overlaid at build time, never in /repo).
@@ -226,3 +228,27 @@ func (namespaceManager *NamespaceManager) VerifMutex(kind string) *sync.Mutex {
 	}
 	return nil
 }
+
+// VerifNewBackupManager builds a BackupManager exactly as NewBackupManager does (including the
+// reload of the backup cursor) but without registering it with the global cron scheduler.
+func VerifNewBackupManager(store *Store, env *conf.Config) (*BackupManager, error) {
+	backup := &BackupManager{}
+	backup.backupLocation = env.BackupLocation
+	backup.schedule = env.BackupSchedule
+	if env.BackupSourceLocation == "" {
+		backup.backupSourceLocation = env.StoreLocation
+	} else {
+		backup.backupSourceLocation = env.BackupSourceLocation
+	}
+	backup.useRsync = env.BackupRsync
+	backup.store = store
+	backup.logger = env.Logger.Named("backup")
+	lastID, err := backup.LoadLastID()
+	if err != nil {
+		return nil, err
+	}
+	backup.lastID = lastID
+	return backup, nil
+}
+
+func (backupManager *BackupManager) VerifLastID() uint64 { return backupManager.lastID }
